@@ -155,7 +155,6 @@ func (s *Stream) UnreadByte() error {
 // ReadRune reads the next rune from the underlying source.
 // It throws an error if the stream is not an input text stream.
 func (s *Stream) ReadRune() (r rune, size int, err error) {
-	s.lastRuneSize = 0
 	if err := s.initRead(); err != nil {
 		return 0, 0, err
 	}
@@ -164,30 +163,22 @@ func (s *Stream) ReadRune() (r rune, size int, err error) {
 		return 0, 0, errWrongStreamType
 	}
 
-	wasPast := s.endOfStream == endOfStreamPast
 	r, n, err := s.buf.ReadRune()
 	s.position += int64(n)
 	s.lastRuneSize = n
-	if errors.Is(err, io.EOF) {
-		s.lastRuneSize = -1 // This read hit the end of stream. It can be unread.
-		if wasPast {
-			s.lastRuneSize = -2 // The stream was already past the end. Unreading doesn't bring it back.
-		}
-	}
 	s.checkEOS(err)
 	return r, n, err
 }
 
-func (s *Stream) UnreadRune() error {
-	if s.lastRuneSize < 0 {
-		// The last read hit the end of stream. There's nothing to unread but the end of stream itself.
-		if s.lastRuneSize == -1 {
-			s.endOfStream = endOfStreamAt
-		}
-		s.lastRuneSize = 0
-		return nil
+// lookedAhead is called after a look-ahead (a peek, or the look-ahead of read_term/2) that started in the state eos
+// and didn't deliver the end of stream: if the look-ahead hit the end, the stream is at the end, not past it.
+func (s *Stream) lookedAhead(eos endOfStream) {
+	if s.endOfStream == endOfStreamPast && eos != endOfStreamPast {
+		s.endOfStream = endOfStreamAt
 	}
+}
 
+func (s *Stream) UnreadRune() error {
 	if err := s.initRead(); err != nil {
 		return err
 	}
